@@ -278,6 +278,10 @@ func updateIncremental(kc *base.KnowledgeContext, rb *builder.RuleBuilder) {
 		newRuleEntities[mk] = mv
 	}
 
+	//the sort index is kept in a local too: the installed rule set is never edited in place,
+	//a fresh one is published at the end (requests that run concurrently keep the set they pinned)
+	sortRulesIndexMap := rb.Kc.SortRulesIndexMap
+
 	//copy
 	newSortRules := make([]*base.RuleEntity, len(rb.Kc.SortRules))
 	for sk, sv := range rb.Kc.SortRules {
@@ -290,7 +294,7 @@ func updateIncremental(kc *base.KnowledgeContext, rb *builder.RuleBuilder) {
 		if vm, ok := newRuleEntities[k]; ok {
 			//repalce update
 			//search
-			index := rb.Kc.SortRulesIndexMap[v.RuleName]
+			index := sortRulesIndexMap[v.RuleName]
 			if v.Salience == vm.Salience {
 				//replace
 				newSortRules[index] = v
@@ -312,7 +316,7 @@ func updateIncremental(kc *base.KnowledgeContext, rb *builder.RuleBuilder) {
 				for k, v := range newSortRules {
 					indexMap[v.RuleName] = k
 				}
-				rb.Kc.SortRulesIndexMap = indexMap
+				sortRulesIndexMap = indexMap
 			}
 
 			newRuleEntities[k] = v
@@ -334,15 +338,18 @@ func updateIncremental(kc *base.KnowledgeContext, rb *builder.RuleBuilder) {
 			for k, v := range newSortRules {
 				indexMap[v.RuleName] = k
 			}
-			rb.Kc.SortRulesIndexMap = indexMap
+			sortRulesIndexMap = indexMap
 
 			newRuleEntities[k] = v
 		}
 	}
 
-	rb.Kc.RuleEntities = newRuleEntities
+	newKc := base.NewKnowledgeContext()
+	newKc.RuleEntities = newRuleEntities
 	verifHook("incr_mid", 0, 0)
-	rb.Kc.SortRules = newSortRules
+	newKc.SortRules = newSortRules
+	newKc.SortRulesIndexMap = sortRulesIndexMap
+	rb.Kc = newKc
 }
 
 //sync method
@@ -389,7 +396,7 @@ func (gp *GenginePool) ClearPoolRules() {
 	gp.ruleBuilder = builder.NewRuleBuilder(dataContext)
 	gp.clear = true
 	for i := 0; i < int(gp.max); i++ {
-		gp.rbSlice[i].Kc.ClearRules()
+		gp.rbSlice[i].Kc = base.NewKnowledgeContext()
 		verifHook("publish", int64(i), 4)
 	}
 }
@@ -528,7 +535,11 @@ func (gp *GenginePool) prepare(reqName string, req interface{}, respName string,
 		return nil, e
 	}
 
-	gw.rulebuilder = gp.rbSlice[gw.tag]
+	//pin the rule set of this instance for the whole request: a hot update that lands while the
+	//request is running must not be seen by a part of it
+	gp.updateLock.Lock()
+	gw.rulebuilder = &builder.RuleBuilder{Kc: gp.rbSlice[gw.tag].Kc, Dc: gp.rbSlice[gw.tag].Dc}
+	gp.updateLock.Unlock()
 
 	if reqName != "" && req != nil {
 		gw.rulebuilder.Dc.Add(reqName, req)
@@ -547,7 +558,11 @@ func (gp *GenginePool) prepareWithMultiInput(data map[string]interface{}) (*geng
 		return nil, e
 	}
 
-	gw.rulebuilder = gp.rbSlice[gw.tag]
+	//pin the rule set of this instance for the whole request: a hot update that lands while the
+	//request is running must not be seen by a part of it
+	gp.updateLock.Lock()
+	gw.rulebuilder = &builder.RuleBuilder{Kc: gp.rbSlice[gw.tag].Kc, Dc: gp.rbSlice[gw.tag].Dc}
+	gp.updateLock.Unlock()
 
 	for k, v := range data {
 		//user should not inject "" string or nil value
